@@ -82,6 +82,12 @@ Inductive pstep :=
      edns = client sent OPT; obs = (rcode, EDE code if any, downstream calls, FailureLen afterwards) *)
 | PQuery (k : qkey) (edns : bool) (d : pdown) (rcode : N) (ede : option N) (calls : Z) (flen : Z).
 
+(* one request of a cohort (or of the sequential prelude in front of it) through Cache.ServeDNS:
+   question, client EDNS, what the downstream was scripted to do with it, and what was observed:
+   rcode, EDE, its own downstream calls, and [late] = its downstream call began after the leader
+   it had waited for returned *)
+Inductive cmember := CM (k : qkey) (edns : bool) (d : pdown) (rcode : N) (ede : option N) (calls : Z) (late : bool).
+
 Inductive case :=
   (* fc.backoff(streak) for a constructed cache: (streak, observed ns) *)
 | CaseBackoff (init max : Z) (obs : list (N * Z))
@@ -133,7 +139,14 @@ Inductive case :=
 | CaseShed (e : rerr) (rc1 : N) (ede1 : option N) (up1 : Z) (rc2 : N) (ede2 : option N) (up2 : Z)
   (* expired-zone probe cohort: n concurrent queries for distinct names below one
      expired zone failure; observed downstream calls and how many got SERVFAIL+EDE13 *)
-| CaseProbe (tab : list (qkey * N)) (zone : name) (qclass : N) (names : list (name * bool * option scope)) (keys : list (option N)) (calls : Z) (cached : Z).
+| CaseProbe (tab : list (qkey * N)) (zone : name) (qclass : N) (names : list (name * bool * option scope)) (keys : list (option N)) (calls : Z) (cached : Z)
+  (* requests sharing one dedup key while a miss is resolved (synctest bubble, virtual instant 0):
+     pre = ordinary queries one after the other; then every leader is parked in the downstream
+     handler, every follower arrives, the leaders are released in order and after each the followers
+     that went downstream themselves; in_flight = requests inside the downstream handler before any
+     leader returned; final = the failure cache afterwards *)
+| CaseCohort (raw_size raw_init raw_max : Z) (disabled : bool) (eff_init eff_max : Z) (tab : list (qkey * N))
+             (pre : list cmember) (groups : list (cmember * list cmember)) (in_flight : Z) (final : list (N * entry)).
 
 (* ---------------------------------------------------------------- model run *)
 Section Run.
@@ -296,6 +309,50 @@ Fixpoint list_Z_eqb (a b : list Z) : bool :=
   | _, _ => false
   end.
 
+(* ---- cohorts *)
+Definition pd_split (d : pdown) : downstream * zone_note :=
+  match d with
+  | PDFail r zr => (DFail r, zr)
+  | PDUseful zc => (DUseful false, zc)
+  | PDUsefulScoped zc => (DUseful true, zc)
+  | PDTrunc => (DTruncated, None)
+  end.
+Definition cm_key (m : cmember) : qkey := let 'CM k _ _ _ _ _ _ := m in k.
+Definition cm_req (m : cmember) : creq := let 'CM k _ d _ _ _ _ := m in (k, fst (pd_split d), snd (pd_split d)).
+(* does what the client and the downstream counter saw fit the way the model says the request ended? *)
+Definition cm_obs_ok (m : cmember) (a : cans) : bool :=
+  let 'CM k edns d rcode ede calls late := m in
+  match a with
+  | CCached => (calls =? 0) && negb (rcode =? 2)%N && negb late
+  | CFailure => (calls =? 0) && (rcode =? 2)%N && opt_N_eqb ede (if edns then Some 13%N else None) && negb late
+  | CDown l =>
+      (calls =? 1) && negb (opt_N_eqb ede (Some 13%N)) && Bool.eqb late l &&
+      match d with
+      | PDFail _ _ => negb (rcode =? 0)%N
+      | PDUseful _ | PDUsefulScoped _ => negb (rcode =? 2)%N
+      | PDTrunc => true
+      end
+  end.
+Fixpoint run_prelude (H : qkey -> N) (c : cfg) (s : store) (pos : list akey) (now : Z) (pre : list cmember) : store * list akey * bool :=
+  match pre with
+  | [] => (s, pos, true)
+  | m :: r =>
+      let l := ladder_of H s pos (cm_key m) now in
+      let '(s1, pos1) := match l with
+                         | LMiss => apply_down H c s pos (cm_key m) (snd (fst (cm_req m))) (snd (cm_req m)) now
+                         | _ => (s, pos)
+                         end in
+      if cm_obs_ok m (ans_of false l) then run_prelude H c s1 pos1 now r else (s1, pos1, false)
+  end.
+Fixpoint cohort_obs_ok (groups : list (cmember * list cmember)) (out : list (cans * list cans)) : bool :=
+  match groups, out with
+  | [], [] => true
+  | (ld, fs) :: gr, (la, fa) :: outr =>
+      cm_obs_ok ld la && (length fs =? length fa)%nat &&
+      forallb (fun p => cm_obs_ok (fst p) (snd p)) (combine fs fa) && cohort_obs_ok gr outr
+  | _, _ => false
+  end.
+
 Definition check_case (x : case) : bool :=
   match x with
   | CaseBackoff init max obs =>
@@ -397,6 +454,18 @@ Definition check_case (x : case) : bool :=
       (length want =? length keys)%nat &&
       forallb (fun p => opt_N_eqb (fst p) (snd p)) (combine want keys) &&
       (calls =? 1) && (cached =? Z.of_nat (length names) - 1)
+  | CaseCohort raw_size raw_init raw_max disabled eff_init eff_max tab pre groups in_flight final =>
+      let c := pipe_cfg raw_size raw_init raw_max in
+      let H := tab_H tab in
+      (c_init c =? eff_init) && (c_max c =? eff_max) &&
+      (* a follower asks its leader's question (up to letter case and host bits of the ECS source) *)
+      forallb (fun g => forallb (fun f => qkey_eqb (norm_qkey (cm_key f)) (norm_qkey (cm_key (fst g)))) (snd g)) groups &&
+      let '(s0, pos0, ok0) := run_prelude H c (mk_store [] disabled) [] 0 pre in
+      let '(s, _, out) := cohort_run H c s0 pos0 s0 pos0 0 (map (fun g => (cm_req (fst g), map cm_req (snd g))) groups) in
+      ok0 && cohort_obs_ok groups out &&
+      (* before any leader returned exactly the leaders that missed were downstream: every follower waited *)
+      (in_flight =? Z.of_nat (length (filter (fun o => cans_eqb (fst o) (CDown false)) out))) &&
+      same_map (s_map s) final
   end.
 
 (* ------------------------------------------------------------------ oracle *)
@@ -630,6 +699,64 @@ Fixpoint spec_psteps (init max : Z) (disabled : bool) (l : pledger) (pos : list 
       ok_ede && ok_cached && ok_off && spec_psteps init max disabled l' pos now r
   end.
 
+(* ---- cohort oracle: the pipeline ledger, for requests that overlap in time.
+   A request is judged against what had failed when it looked: [view] for the look at arrival,
+   the running ledger for a look after a wake-up. *)
+Definition covered_now (l : pledger) (now : Z) (K : qkey) : bool :=
+  existsb (fun kv => let '(x, (t, _)) := kv in covers_reset K x && (t =? now)) l.
+Definition spec_cm (init max : Z) (disabled : bool) (view l : pledger) (now : Z) (m : cmember) : bool :=
+  let 'CM k edns d rcode ede calls late := m in
+  let K := norm_qkey k in
+  let ede13 := opt_N_eqb ede (Some ede_cached_error) in
+  (* EDE 13 means "answered from the failure cache": then no upstream traffic *)
+  (if ede13 then (calls =? 0) && (rcode =? rcode_servfail)%N else true) &&
+  (* a cached failure is one that was recorded for this question or a zone above it, inside its backoff *)
+  (if (calls =? 0) && (rcode =? rcode_servfail)%N
+   then negb disabled && (justified init max view now K || justified init max l now K) && (if edns then ede13 else true)
+   else true) &&
+  (* and the other way round: a question whose shared failure was recorded at this very instant is
+     answered from the failure cache — a request that looks after that record must not go upstream *)
+  (if (0 <? calls) && negb disabled then negb (covered_now (if late then l else view) now K) else true).
+Definition spec_cm_bump (l : pledger) (now : Z) (m : cmember) : pledger :=
+  let 'CM k edns d rcode ede calls late := m in
+  let K := norm_qkey k in
+  if calls =? 0 then l else
+  match d with
+  | PDFail rl zr =>
+      let l1 := match zr with
+                | Some (qc, Some z) => if request_local rl then l else plbump (EZ (norm_zkey (mk_zkey z qc))) now l
+                | _ => l
+                end in
+      if request_local rl then l1 else plbump (EQ K) now l1
+  | PDUseful zc =>
+      let l1 := match zc with
+                | Some (qc, Some z) => pldel_if (ekey_eqb (EZ (norm_zkey (mk_zkey z qc)))) l
+                | _ => l
+                end in
+      pldel_if (fun x => covers_reset K x || covers_reset (mk_qkey (qk_name K) (qk_type K) (qk_class K) (qk_cd K) None) x) l1
+  | PDUsefulScoped zc =>
+      let l1 := match zc with
+                | Some (qc, Some z) => pldel_if (ekey_eqb (EZ (norm_zkey (mk_zkey z qc)))) l
+                | _ => l
+                end in
+      pldel_if (covers_reset K) l1
+  | PDTrunc => l
+  end.
+Fixpoint spec_prelude (init max : Z) (disabled : bool) (l : pledger) (now : Z) (pre : list cmember) : bool * pledger :=
+  match pre with
+  | [] => (true, l)
+  | m :: r => if spec_cm init max disabled l l now m then spec_prelude init max disabled (spec_cm_bump l now m) now r else (false, l)
+  end.
+Fixpoint spec_groups (init max : Z) (disabled : bool) (view l : pledger) (now : Z) (groups : list (cmember * list cmember)) : bool :=
+  match groups with
+  | [] => true
+  | (ld, fs) :: r =>
+      spec_cm init max disabled view view now ld &&
+      let l1 := spec_cm_bump l now ld in
+      forallb (spec_cm init max disabled view l1 now) fs &&
+      spec_groups init max disabled view (fold_left (fun acc f => spec_cm_bump acc now f) fs l1) now r
+  end.
+
 Definition spec_case (x : case) : bool :=
   match x with
   | CaseBackoff init max obs =>
@@ -695,4 +822,9 @@ Definition spec_case (x : case) : bool :=
   | CaseProbe tab zone qclass names keys calls cached =>
       (* the first retry after a backoff is led by a single probe *)
       (calls =? 1)
+  | CaseCohort raw_size raw_init raw_max disabled eff_init eff_max tab pre groups in_flight final =>
+      (spec_floor <=? eff_init) && (eff_init <=? eff_max) && (eff_max <=? spec_ceiling) &&
+      (let '(ok, l0) := spec_prelude eff_init eff_max disabled [] 0 pre in
+       ok && spec_groups eff_init eff_max disabled l0 l0 0 groups) &&
+      (if disabled then match final with [] => true | _ => false end else true)
   end.
